@@ -170,6 +170,19 @@ class ArrayMap(Map):
         ebpf.owners.add(self.base_register)
 
 
+def possible_cpus():
+    """the number of possible CPUs
+
+    The kernel sizes the values of per-CPU maps by this number, which may be
+    larger than the number of CPUs currently online."""
+    try:
+        with open("/sys/devices/system/cpu/possible") as fin:
+            return max(int(r.split("-")[-1])
+                       for r in fin.read().strip().split(",")) + 1
+    except (OSError, ValueError):
+        return cpu_count()
+
+
 class PerCPUReader:
     def __init__(self, map, fd):
         self.map = map
@@ -217,7 +230,7 @@ class PerCPUArrayMap(ArrayMap):
         return PerCPUVarDesc(self, fmt)
 
     def create_map(self, ebpf, fd):
-        self.cpu_no = cpu_count()
+        self.cpu_no = possible_cpus()
         if fd is None:
             fd = create_map(MapType.PERCPU_ARRAY, 4, self.size, 1)
         setattr(ebpf, self.name, PerCPUReader(self, fd))
